@@ -68,7 +68,7 @@ func (fa *FuncAnalysis) EarlyExitsExcept(h *ssa.BasicBlock, allowed func(Guard) 
 			continue
 		}
 		for i, s := range b.Succs {
-			if loop[s] {
+			if loop[s] || fa.edgeDead(b, i) {
 				continue
 			}
 			if _, isErr := fa.errEdge(b, i); isErr {
@@ -133,7 +133,7 @@ func (fa *FuncAnalysis) IterationBypass(h *ssa.BasicBlock, via []ssa.Instruction
 			}
 		}
 		for i, s := range b.Succs {
-			if !loop[s] {
+			if !loop[s] || fa.edgeDead(b, i) {
 				continue
 			}
 			if g, ok := fa.EdgeFact(b, i); ok && allow != nil && allow(g) {
